@@ -165,8 +165,7 @@ theorem c09_alter_detected_file_partial (h : Hooks) {b b' : Bytes} {fv : Fv} {st
     (hcl : r < (if isLarge f.info.attrs = true then 32 else 24) ∨ hasChecksum f.info.attrs = true)
     (hpro : fvPrologue b ≤ align8 (startAfter pre fv.info.dataOffset) + r)
     (hbig : b.length + 8 < 2 ^ 64)
-    (hfree : ¬ (rd (b'.take (rd b 32 8)) (align8 (startAfter pre fv.info.dataOffset) + 20) 3 = 0xFFFFFF ∧
-                rd (b'.take (rd b 32 8)) (align8 (startAfter pre fv.info.dataOffset) + 24) 8 = 0xFFFFFFFFFFFFFFFF)) :
+    (hfree : ¬ FreeSpaceAt (b'.take (rd b 32 8)) (align8 (startAfter pre fv.info.dataOffset))) :
     parseValidate h b' ≠ .ok [] :=
   alter_detected_file_first h hns h0 hok hfv hfiles ha hr h23 hcl hpro hbig hfree
 
